@@ -472,3 +472,18 @@ Theorem C01_lost_read_two_deployed_refuted :
    out = OOk /\ Contain.statuses (w_led w) = [(1, SSuperseded); (2, SDeployed); (3, SDeployed)]).
 Proof. exact SeqRead.lost_read_two_deployed_refuted. Qed.
 Print Assumptions C01_lost_read_two_deployed_refuted.
+
+(* Known finding K14 — Install.availableName takes a FAILED history lookup for "no such release":
+   here an empty answer IS what the unchanged code computes with.  2:superseded 3:deployed (revision 1
+   pruned); install with its name check (read 0) lost reports success with a new revision 1 — below
+   the highest one — and two deployed revisions.  The harness replays it with a real injected read
+   error (C01:install-after-lost-name-check). *)
+Theorem C01_lost_name_check_refuted :
+  Contain.statuses (w_led (SeqRead.world_of SeqRead.nc_prefix)) = [(2, SSuperseded); (3, SDeployed)] /\
+  (let '(w, out, _) := run_store_op "rel" "default" (mkOp SeqRead.nc_op (mkSF None None) (mkCF None None false))
+                                    (SeqRead.world_of SeqRead.nc_prefix) in
+   out = OErr ENameInUse /\ Contain.statuses (w_led w) = [(2, SSuperseded); (3, SDeployed)]) /\
+  (let '(w, out, _) := SeqRead.run_lost_read 0 SeqRead.nc_op (SeqRead.world_of SeqRead.nc_prefix) in
+   out = OOk /\ Contain.statuses (w_led w) = [(1, SDeployed); (2, SSuperseded); (3, SDeployed)]).
+Proof. exact SeqRead.lost_name_check_refuted. Qed.
+Print Assumptions C01_lost_name_check_refuted.
